@@ -30,6 +30,10 @@ CLAIMED.update({
             "Protocol fee value reaches both ledgers keyed by the ask pool on every success path; burn value paired with an attached "
             "burn message; in collect a ledger entry is zeroed exactly in the amount regions in which its transfer is attached, "
             "recipient = CONFIG.fee_collector_addr; all-time ledgers written only by the add-only helper.", "§4 C07"),
+    "C08": ("guard dominance + rejection-atom edge analysis + arithmetic-source tracing + ordering-domain walks + time-keyed-write merge rule",
+            "validate_funds's five rejection atoms cannot reach Ok and its success dominates the bond writes; one declared amount feeds "
+            "BOND, GLOBAL.bonded_amount, bonded_assets and the UNBOND record; unbond reachable iff bonded >= amount; a block-time-keyed "
+            "UNBOND save must merge; withdraw releases exactly matured records, add and remove together, payout to the caller.", "§4 C08"),
     "C12": ("configuration-sliced CFG reachability (correlated enum branches) + forward message flow + refund provenance",
             "In every (fee asset, flow asset, same?) configuration every path to FLOWS.save crosses a funding tie "
             "(funds comparison or attached TransferFrom of the flow amount); every message built is attached; close_flow refunds "
